@@ -22,6 +22,10 @@ def design_checks(res):
             raise wv.Infra("negative control %s did not fail: the model cannot express the defect" % cfg)
         if must_hold:
             res.add("states", o["distinct"]); res.add("transitions", o["states"])
+    wv.proofs(res, "MDProofs")
+    link = wv.tlc("MDProofsLink", workers=1, timeout=300)
+    if not link["ok"]:
+        raise wv.Infra("MDProofsLink failed:\n" + link["out"][-1500:])
     res.cov["design_model"] = "HashBuffer.tla: all lengths 0..264 x refill {1,2,3} units x prefix block; invariants UnitsPrefix, UnitsExact, LengthExact, InBounds, <>done; negative controls LenBeforeExtra=FALSE (D4a) and CounterWrap=256 (D4b) both violate LengthExact"
 
 
